@@ -19,6 +19,7 @@ mod frag;
 mod handshake;
 mod inbound;
 mod framing;
+mod guard;
 mod io;
 mod keepalive;
 mod localproc;
@@ -64,6 +65,7 @@ fn main() {
         "serde-rt" => serde_rt::run(rest),
         "elixir-run" => elixir::run(rest),
         "epmd-run" => epmd::run(rest),
+        "guard-run" => guard::run(rest),
         "keepalive-run" => keepalive::run(rest),
         "behaviours-run" => behaviours::run(rest),
         "nodeconn-run" => nodeconn::run(rest),
